@@ -440,6 +440,10 @@ func (c *Ctx) ruleKeysetWiring(rule string) {
 						}
 					}
 				}
+				// never two active rows: the new active row is written only after the old one was marked inactive
+				// (the opposite window - no active row between the two writes - is the known finding of C07.T K1)
+				okOrd, whyOrd := c.RequireAt(save, deactOK)
+				R.Check(rule, fk, "new active row inserted <= old keyset inactive in storage", c.P.InstrPos(save), okOrd, "at no point are two keyset rows active: the insert of the new active keyset follows the successful deactivation of the old one", whyOrd)
 				saveOK := &Cond{Name: "new keyset row saved", Match: func(ft *Fact, _ *Origins) bool {
 					return ft.Kind == "errnil" && ft.Pos && ft.A.K == "call" && ft.A.Call == save
 				}}
